@@ -291,7 +291,9 @@ func (p *Parser) statement() (Statement, error) {
 					indexIdent = &ExprIdentifier{*p.previous}
 				}
 
-				p.consume(In)
+				if err := p.consume(In); err != nil {
+					return nil, err
+				}
 				expr, err := p.expression()
 				if err != nil {
 					return nil, err
